@@ -212,6 +212,8 @@ def job_driver(ctx: Ctx, driver, order, with_tf):
     def fake_solve(A, bvec):
         A, bvec = np.asarray(A, dtype=object), np.asarray(bvec, dtype=object)
         n = len(bvec)
+        if n == 0:
+            return arr([])
         if n == 1:
             return arr([bvec[0] / A[0, 0]])
         if n == 2:
